@@ -11,7 +11,7 @@ RULE = ('one evaluation = one driver life with 1-12 clients whose connection slo
         'commands calling command() several times, users connecting and disconnecting mid-run, ticks interleaved. non-trivial = at '
         'least two users had commands buffered in the same cycle; distinct = distinct abstract traces (per cycle: set of users '
         'with buffered commands and set served, slot layout).')
-RULE += (' Later additions: commands that end in an uncaught error among the queued ones; reads interrupted by EINTR; a connection that the client neither closed nor reset must not be closed by the driver.')
+RULE += (' Later additions: commands that end in an uncaught error among the queued ones; reads interrupted by EINTR; a connection that the client neither closed nor reset must not be closed by the driver; connections reported readable with nothing to read.')
 COMPONENTS = {'real': ['src/backend.c main loop (turn granting)', 'src/comm.c process_user_command/get_user_command/first_cmd_in_buf/next_cmd_in_buf/get_user_data', 'lib/efuns/command.c'],
               'stub': ['kernel recv()/epoll (simulated, one recv per readiness event)', 'timer thread (plan ticks)']}
 ASSUMPTIONS = ['a cycle = one pass of the backend loop = one epoll_wait call of the simulated kernel',
@@ -89,6 +89,7 @@ def gen(rng, tier, i):
                         elif failing and rng.random() < 0.15: data += 'do rec c%d_%d;bomb %d err\r\n' % (c, k, 100 * c + k)
                         else: data += 'c%d_%d\r\n' % (c, k)
                 segs = rand_segs(rng, len(data)) if rng.random() < 0.4 else None
+                if rng.random() < 0.04: steps.append('spurious %d' % rng.choice(live))       # a connection reported readable with nothing to read
                 if rng.random() < 0.05: steps.append('recvintr %d %d' % (c, rng.randint(1, 2)))     # the read of this data is interrupted first (EINTR): the data is still there
                 steps.append(send(c, data, segs))
             p.cycle(*steps)
